@@ -4,6 +4,7 @@ package nack
 
 import (
 	"encoding/json"
+	"errors"
 	"sync"
 	"testing"
 	"time"
@@ -18,8 +19,11 @@ import (
 // the resend goroutines are stepped through the verif gates (start / get / done) and through the
 // harness's downstream writer (emit).
 type vfRespScript struct {
-	Size  uint16 `json:"size"`
-	Steps []struct {
+	Size uint16 `json:"size"`
+	// DrainFail: when the jobs are run to completion at the end of the script, the stream's writer refuses the first
+	// retransmission of every job (the remaining numbers of the NACK must be answered all the same)
+	DrainFail bool `json:"drainfail"`
+	Steps     []struct {
 		A       string   `json:"a"`
 		S       uint32   `json:"s"`
 		W       uint16   `json:"w"`
@@ -32,17 +36,23 @@ type vfRespScript struct {
 		RtxSSRC uint32   `json:"rtxssrc"`
 		RtxPT   uint8    `json:"rtxpt"`
 		Nums    []uint16 `json:"nums"`
+		// Fail: jobemit - the stream's writer refuses this retransmission (after it has seen it); nack - packed pairs
+		Fail bool `json:"fail"`
 	} `json:"steps"`
 }
 
+var errVfRespInjected = errors.New("injected RTP write failure") //nolint:gochecknoglobals
+
 type vfJob struct {
-	id      int
-	nums    []uint16
-	next    int
-	state   string // "start", "get", "emit", "done"
-	parked  chan string
-	release chan struct{}
-	emitted vfM
+	failNext   bool
+	failedOnce bool
+	id         int
+	nums       []uint16
+	next       int
+	state      string // "start", "get", "emit", "done"
+	parked     chan string
+	release    chan struct{}
+	emitted    vfM
 }
 
 type vfResp struct {
@@ -143,6 +153,11 @@ func (r *vfResp) write(h *rtp.Header, pl []byte, _ interceptor.Attributes) (int,
 	}
 	// what the transport would read at the moment it sends the retransmission
 	j.emitted = vfPkt(h, pl)
+	if j.failNext {
+		j.failNext = false
+
+		return 0, errVfRespInjected
+	}
 
 	return len(pl), nil
 }
@@ -253,10 +268,11 @@ func vfRunResp(t *testing.T, sc *vfRespScript, out *vfWriter) { //nolint:gocogni
 		writer interceptor.RTPWriter
 	}
 	streams := map[uint32]*bound{}
+	stale := map[uint32]*bound{} // the writer of a stream that has been unbound (a Write that lost the race with the Unbind)
 	jobs := map[int]*vfJob{}
 	order := []int{}
 
-	jobStep := func(j *vfJob, want string) {
+	jobStep := func(j *vfJob, want string, fail bool) {
 		switch {
 		case want == "jobstart" && j.state == "start":
 			st := r.step(j)
@@ -270,6 +286,7 @@ func vfRunResp(t *testing.T, sc *vfRespScript, out *vfWriter) { //nolint:gocogni
 			st := r.step(j)
 			out.Emit(vfM{"a": "jobget", "j": j.id, "n": n, "found": st == "emit"})
 		case want == "jobemit" && j.state == "emit":
+			j.failNext = fail // (the remaining numbers of the NACK must be answered all the same)
 			r.step(j)
 			out.Emit(vfM{"a": "jobemit", "j": j.id, "pkt": j.emitted})
 		}
@@ -289,6 +306,7 @@ func vfRunResp(t *testing.T, sc *vfRespScript, out *vfWriter) { //nolint:gocogni
 			}
 			b.writer = ic.BindLocalStream(b.info, interceptor.RTPWriterFunc(r.write))
 			streams[st.S] = b
+			delete(stale, st.S)
 			out.Emit(vfM{"a": "bind", "s": st.S, "nack": st.Nack, "rtxssrc": st.RtxSSRC, "rtxpt": st.RtxPT})
 		case "unbind":
 			b := streams[st.S]
@@ -298,6 +316,7 @@ func vfRunResp(t *testing.T, sc *vfRespScript, out *vfWriter) { //nolint:gocogni
 			releaseParked()
 			ic.UnbindLocalStream(b.info)
 			delete(streams, st.S)
+			stale[st.S] = b
 			out.Emit(vfM{"a": "unbind", "s": st.S})
 		case "close":
 			if closeDone != nil {
@@ -352,8 +371,14 @@ func vfRunResp(t *testing.T, sc *vfRespScript, out *vfWriter) { //nolint:gocogni
 			case <-time.After(10 * time.Second):
 				t.Fatalf("VERIF-FAIL a Write neither reached the transport nor returned within 10s")
 			}
-		case "write":
+		case "write", "wstale":
 			b := streams[st.S]
+			if st.A == "wstale" { // through the writer the unbound stream had: passes through, is not kept for retransmission
+				b = stale[st.S]
+				if streams[st.S] != nil {
+					b = nil
+				}
+			}
 			if b == nil {
 				continue
 			}
@@ -388,6 +413,13 @@ func vfRunResp(t *testing.T, sc *vfRespScript, out *vfWriter) { //nolint:gocogni
 			for _, n := range st.Nums {
 				pairs = append(pairs, rtcp.NackPair{PacketID: n})
 			}
+			if st.Fail { // (nack step) packed form: numbers within 16 of each other share one pair (id + bit mask)
+				pairs = rtcp.NackPairsFromSequenceNumbers(st.Nums)
+				st.Nums = nil
+				for i := range pairs {
+					st.Nums = append(st.Nums, pairs[i].PacketList()...) // the order in which the pairs name the numbers
+				}
+			}
 			raw, merr := (&rtcp.TransportLayerNack{SenderSSRC: 99, MediaSSRC: st.S, Nacks: pairs}).Marshal()
 			if merr != nil {
 				t.Fatalf("VERIF-INFRA marshal nack: %v", merr)
@@ -416,7 +448,7 @@ func vfRunResp(t *testing.T, sc *vfRespScript, out *vfWriter) { //nolint:gocogni
 			out.Emit(vfM{"a": "nack", "s": st.S, "j": st.J, "nums": st.Nums, "started": started})
 		case "jobstart", "jobget", "jobemit":
 			if j := jobs[st.J]; j != nil {
-				jobStep(j, st.A)
+				jobStep(j, st.A, st.Fail)
 				time.Sleep(200 * time.Microsecond) // (gives a Close that wrongly stopped waiting the chance to show)
 				pollClose(false)
 			}
@@ -429,11 +461,12 @@ func vfRunResp(t *testing.T, sc *vfRespScript, out *vfWriter) { //nolint:gocogni
 		for j.state != "done" {
 			switch j.state {
 			case "start":
-				jobStep(j, "jobstart")
+				jobStep(j, "jobstart", false)
 			case "get":
-				jobStep(j, "jobget")
+				jobStep(j, "jobget", false)
 			case "emit":
-				jobStep(j, "jobemit")
+				jobStep(j, "jobemit", sc.DrainFail && !j.failedOnce)
+				j.failedOnce = true
 			}
 		}
 	}
